@@ -381,6 +381,9 @@ func (e *Env) RIndex() {
 					if descBounded(info, fd, x) {
 						return true // a parameter that every caller sets to a range key of S, or a loop counting down from it to 0
 					}
+					if e.idxInRange(pkg, fd, x) {
+						return true // 0 <= index < len(S) from loops, path conditions, definitions and call sites (rangeproof.go)
+					}
 					add("var", x.Pos(), x)
 				}
 			case *ast.SliceExpr:
